@@ -116,3 +116,10 @@ package stream
 //verif:call[one-record-per-process-call] Processor.Process requires len(arg1) == 1 && since("(*ProcessorNode).applyPendingSwap", "Processor.Process") >= 1 && succeeded("Processor.Open")
 //verif:call[no-swap-between-process-and-handle] (*ProcessorNode).handleProcessedRecord requires since("(*ProcessorNode).applyPendingSwap", "Processor.Process") == 0 && called("Processor.Process")
 //verif:call[filtered-forwarded-untouched] (*pubSubNodeBase).Send requires arg3 == msg && msg.filtered && since("Processor.Process", "(*ProcessorNode).applyPendingSwap") == 0
+
+// ---- DestinationAckerNode.worker (C01, C09) ---------------------------------------
+// Whatever the destination connector replies (zero acks, surplus acks, foreign
+// positions), the worker does not index out of range, and it acks a message only
+// if it was filtered or the destination confirmed exactly its position.
+//verif:func (*DestinationAckerNode).worker(n, ctx, signalChan, errChan)
+//verif:call[ack-only-confirmed-or-filtered] (*DestinationAckerNode).handleAck requires arg1 == msg && (msg.filtered && arg2 == nil || !msg.filtered && result_of("bytes.Equal", 0) && since("(*DestinationAckerNode).handleAck", "bytes.Equal") == 0)
